@@ -25,3 +25,19 @@ def bare(cls, **attrs):
     for k, v in attrs.items():
         setattr(o, k, v)
     return o
+
+
+def rat_eq(v, num, den):
+    """v (float natively, SRat symbolically) equals num/den exactly."""
+    if isinstance(v, core.SRat):
+        return v.eq_frac(num, den)
+    from fractions import Fraction
+    return Fraction(v) == Fraction(num, den)
+
+
+def rat_pair(v):
+    if isinstance(v, core.SRat):
+        return [v.num, v.den]
+    from fractions import Fraction
+    f = Fraction(v)
+    return None
